@@ -371,7 +371,8 @@ Theorem ZnearestA_spec : forall a : R,
   (Rabs (a - IZR (ZnearestA a)) <= / 2)%R /\
   ((Rabs (a - IZR (ZnearestA a)) = / 2)%R -> (Rabs a <= Rabs (IZR (ZnearestA a)))%R).
 Proof. exact FloatBridge2.ZnearestA_spec. Qed.
-(* ==> 4 axioms *)
+(* ==> two of the 4 axioms: ClassicalDedekindReals.sig_forall_dec,
+       FunctionalExtensionality.functional_extensionality_dep *)
 
 (* ------------------------------------------------------------------------------------------ *)
 (* F. Classification                                                                             *)
@@ -401,7 +402,8 @@ Proof. exact FloatBridge2.classify_flocq. Qed.
 Theorem normal_char : forall x : f64, valid x = true ->
   (f_is_normal x = true <-> is_finite_SF x = true /\ (bpow radix2 (-1022) <= Rabs (rval x))%R).
 Proof. exact FloatBridge2.normal_char. Qed.
-(* ==> 4 axioms *)
+(* ==> two of the 4 axioms: ClassicalDedekindReals.sig_forall_dec,
+       FunctionalExtensionality.functional_extensionality_dep *)
 
 (* ------------------------------------------------------------------------------------------ *)
 (* G. The characterisations through (real value, sign) determine the results uniquely            *)
